@@ -14,10 +14,19 @@
 //! with every f64 printed exactly as `<mantissa>:<exp2>` (value = m * 2^e),
 //! `inf`, `-inf` or `nan`.
 //!
+//! Mode `run`: `<sample_count> <sample_size> <threads> <counter_mode> <alloc> <seed>`: a real `Bencher`
+//! run (OS timer; this binary installs `AllocProfiler` as the global allocator so that
+//! allocation info is recorded per sample), then `compute_stats` on what the run left
+//! behind.  Prints `IN <the recorded samples as a stats case> OUT <stats line>`: the
+//! model is driven by the recording.
+//!
 //! Mode `periter`: `<sample_size> <c0,c1,..>`: runs a real `Bencher` with
 //! `with_inputs` + `input_counter` over the given per-input counts (one sample)
 //! and prints the counter value stored for that sample.
 use divan::__verif as v;
+
+#[global_allocator]
+static ALLOC: divan::AllocProfiler = divan::AllocProfiler::system();
 
 fn f64_exact(x: f64) -> String {
     if x.is_nan() {
@@ -56,6 +65,105 @@ where
     }
 }
 
+fn stats_line(st: &v::PlainStats) -> String {
+    let mut out = format!(
+        "ok sc={} ic={} t={},{},{},{} mac={} mas={}",
+        st.sample_count,
+        st.iter_count,
+        st.time.fastest,
+        st.time.slowest,
+        st.time.median,
+        st.time.mean,
+        set_f64(&st.max_alloc_count),
+        set_f64(&st.max_alloc_size)
+    );
+    for (i, name) in ["g", "s", "a", "d"].iter().enumerate() {
+        out.push_str(&format!(" {}={};{}", name, set_f64(&st.alloc_tallies[i].0), set_f64(&st.alloc_tallies[i].1)));
+    }
+    let cs: Vec<String> = st
+        .counts
+        .iter()
+        .map(|c| match c {
+            None => "none".to_string(),
+            Some(s) => format!("{},{},{},{}", s.fastest, s.slowest, s.median, s.mean),
+        })
+        .collect();
+    out.push_str(&format!(" c={}", cs.join("|")));
+    out
+}
+
+fn join<T: ToString>(v: &[T]) -> String {
+    v.iter().map(|x| x.to_string()).collect::<Vec<_>>().join(",")
+}
+
+/// A real run; see the module documentation.
+fn run(line: &str) -> String {
+    use std::sync::atomic::{AtomicUsize, Ordering};
+    let t = hxlib::toks(line);
+    assert!(t.len() == 6, "run: 6 tokens");
+    let sample_count: u32 = t[0].parse().unwrap();
+    let sample_size: u32 = t[1].parse().unwrap();
+    let threads: usize = t[2].parse().unwrap();
+    let counter_mode: u32 = t[3].parse().unwrap();
+    let alloc: bool = t[4] == "1";
+    let seed: u64 = t[5].parse().unwrap();
+    let mut options = divan::__private::BenchOptions::default();
+    options.sample_count = Some(sample_count);
+    options.sample_size = Some(sample_size);
+    let cfg = v::RunConfig { options: &options, threads, is_test: false, tsc_frequency: None, compute_stats: true };
+    let next = AtomicUsize::new(seed as usize);
+    // Input values: a deterministic sequence depending on the seed only.
+    let gen = || {
+        let i = next.fetch_add(1, Ordering::Relaxed) as u64;
+        (i.wrapping_mul(0x9E3779B97F4A7C15) >> 56) as usize + 1
+    };
+    let work = move |n: usize| -> usize {
+        if alloc {
+            let mut v: Vec<u8> = Vec::with_capacity(n);
+            v.push(1);
+            if n % 3 == 0 {
+                v.reserve(4 * n);
+            }
+            v.len() + n
+        } else {
+            n
+        }
+    };
+    let dump = v::run_bencher(&cfg, &|b: divan::Bencher| match counter_mode {
+        0 => b.with_inputs(gen).bench_values(work),
+        1 => b.counter(divan::counter::ItemsCount::new(5u32)).with_inputs(gen).bench_values(work),
+        2 => b.with_inputs(gen).input_counter(|n: &usize| divan::counter::BytesCount::new(*n)).bench_values(work),
+        _ => b
+            .counter(divan::counter::CharsCount::new(9u32))
+            .with_inputs(gen)
+            .input_counter(|n: &usize| divan::counter::ItemsCount::new(*n * 3))
+            .bench_values(work),
+    });
+    let d = if dump.durations.is_empty() { "-".to_string() } else { join(&dump.durations) };
+    let a = if dump.alloc_infos.is_empty() {
+        "-".to_string()
+    } else {
+        dump.alloc_infos
+            .iter()
+            .map(|(i, info)| {
+                let t = &info.tallies;
+                format!(
+                    "{}:{}:{}:{}:{}:{}:{}:{}:{}:{}:{}",
+                    i, info.max_count, info.max_size, t[0].0, t[0].1, t[1].0, t[1].1, t[2].0, t[2].1, t[3].0, t[3].1
+                )
+            })
+            .collect::<Vec<_>>()
+            .join(";")
+    };
+    let c = dump.counts.iter().map(|k| join(k)).collect::<Vec<_>>().join("|");
+    let u: String = dump.uses_input_counts.iter().map(|&b| if b { '1' } else { '0' }).collect();
+    let out = match &dump.stats {
+        Some(st) => stats_line(st),
+        None => format!("nostats did_run={}", dump.did_run),
+    };
+    format!("IN {} {} {} {} {} OUT {}", dump.sample_size, d, a, c, u, out)
+}
+
 fn stats(line: &str) -> String {
     let t = hxlib::toks(line);
     assert!(t.len() == 5, "stats: 5 tokens");
@@ -87,30 +195,7 @@ fn stats(line: &str) -> String {
 
     let st = v::stats_from_samples(sample_size, &durations, &infos, &counts, uses);
 
-    let mut out = format!(
-        "ok sc={} ic={} t={},{},{},{} mac={} mas={}",
-        st.sample_count,
-        st.iter_count,
-        st.time.fastest,
-        st.time.slowest,
-        st.time.median,
-        st.time.mean,
-        set_f64(&st.max_alloc_count),
-        set_f64(&st.max_alloc_size)
-    );
-    for (i, name) in ["g", "s", "a", "d"].iter().enumerate() {
-        out.push_str(&format!(" {}={};{}", name, set_f64(&st.alloc_tallies[i].0), set_f64(&st.alloc_tallies[i].1)));
-    }
-    let cs: Vec<String> = st
-        .counts
-        .iter()
-        .map(|c| match c {
-            None => "none".to_string(),
-            Some(s) => format!("{},{},{},{}", s.fastest, s.slowest, s.median, s.mean),
-        })
-        .collect();
-    out.push_str(&format!(" c={}", cs.join("|")));
-    out
+    stats_line(&st)
 }
 
 /// One real sample through `Bencher::with_inputs(..).input_counter(..)`: the
@@ -157,6 +242,7 @@ fn dispatch(mode: &str, line: &str) -> String {
     match mode {
         "stats" | "stats_rel" => stats(line),
         "periter" | "periter_rel" => periter(line),
+        "run" | "run_rel" => run(line),
         _ => panic!("unknown mode {mode}"),
     }
 }
